@@ -11,16 +11,15 @@ from .symexec import AIA, AIB, AII, B, I, NONE, SV, Unsupported, as_int, lift_co
 
 ORIENTS = {"LL": 0, "L": 1, "H": 2, "HL": 3, "LH": 4, "HH": 5}
 AIAB = z3.ArraySort(I, AIB)
-
-
-def lo_key(level_z, orient):
-    return level_z * 8 + ORIENTS[orient]
+AIAAB = z3.ArraySort(I, AIAB)
+AIAA = z3.ArraySort(I, AIA)
 
 
 def lo_arrays(ctx, st):
+    """lo_row: ref -> level -> Bool;  lo_has: ref -> level -> orientation id -> Bool;  lo_val: ref -> level -> oid -> value"""
     row = ctx.field_array(st, "lo_row", AIAB)
-    has = ctx.field_array(st, "lo_has", AIAB)
-    val = ctx.field_array(st, "lo_val", AIA)
+    has = ctx.field_array(st, "lo_has", AIAAB)
+    val = ctx.field_array(st, "lo_val", AIAA)
     return row, has, val
 
 
@@ -31,10 +30,16 @@ def install(Exec, Runner):
     base_sort = S.Ctx.sort_of_field
 
     def sort_of_field(self, name):
-        if name in ("lo_row", "lo_has"):
+        if name == "lo_row":
             return AIAB
+        if name == "lo_has":
+            return AIAAB
         if name == "lo_val":
-            return AIA
+            return AIAA
+        if name in ("g_h", "g_w"):
+            return AII
+        if name == "g_val":
+            return AIAA
         return base_sort(self, name)
 
     S.Ctx.sort_of_field = sort_of_field
@@ -96,12 +101,26 @@ def install(Exec, Runner):
                 if name not in ORIENTS:
                     raise Unsupported("orientation %r" % name, e)
                 sub = st.fork(cond) if cond is not None else st
-                k = lo_key(lv, name)
-                ctx.oblige(sub, has[m][k], "key-present", e, "orientation %r is present at this level" % name)
-                z = val[m][k]
+                oid = ORIENTS[name]
+                ctx.oblige(sub, has[m][lv][oid], "key-present", e, "orientation %r is present at this level" % name)
+                z = val[m][lv][oid]
                 v = mk_int(z) if base.x == "int" else mk_ref(z, base.x)
                 res = v if res is None else sv_ite(ctx, cond, v, res)
             return res
+        if base.k == "ref" and str(kind).startswith("grid"):
+            # abstract 2-D array (list of equally long rows): a[y] is a row view
+            y = as_int(ctx, st, self.ev(st, e.slice), e)
+            gh = ctx.field_array(st, "g_h", AII)[base.z]
+            ctx.oblige(st, z3.And(y >= -gh, y < gh), "index-range", e, "row index within the 2-D array's height")
+            y = z3.If(y < 0, y + gh, y)
+            return SV("gridrow", (base.z, y))
+        if base.k == "gridrow":
+            g, y = base.z
+            x = as_int(ctx, st, self.ev(st, e.slice), e)
+            gw = ctx.field_array(st, "g_w", AII)[g]
+            ctx.oblige(st, z3.And(x >= -gw, x < gw), "index-range", e, "column index within the 2-D array's width")
+            x = z3.If(x < 0, x + gw, x)
+            return mk_int(ctx.field_array(st, "g_val", AIAA)[g][y][x])
         if base.k == "choice":
             idx = self.ev(st, e.slice)
             outs = []
@@ -231,30 +250,39 @@ def install(Exec, Runner):
                 if val.k != "emptydict" and not (val.k == "dictlit"):
                     raise Unsupported("only dict literals can be stored as a level of a level/orientation map", node)
                 ctx.set_field_array(st, "lo_row", z3.Store(row, base.z, z3.Store(row[base.z], lv, z3.BoolVal(True))))
-                h = has[base.z]
-                v = val_a[base.z]
+                h = z3.K(I, z3.BoolVal(False))
+                v = val_a[base.z][lv]
                 entries = dict(val.z) if val.k == "dictlit" else {}
                 for name, oid in ORIENTS.items():
-                    h = z3.Store(h, lv * 8 + oid, z3.BoolVal(name in entries))
                     if name in entries:
                         ev_ = entries[name]
-                        v = z3.Store(v, lv * 8 + oid, ev_.z if ev_.k == "ref" else as_int(ctx, st, ev_, node))
-                ctx.set_field_array(st, "lo_has", z3.Store(has, base.z, h))
-                ctx.set_field_array(st, "lo_val", z3.Store(val_a, base.z, v))
+                        h = z3.Store(h, oid, z3.BoolVal(True))
+                        v = z3.Store(v, oid, ev_.z if ev_.k == "ref" else as_int(ctx, st, ev_, node))
+                ctx.set_field_array(st, "lo_has", z3.Store(has, base.z, z3.Store(has[base.z], lv, h)))
+                ctx.set_field_array(st, "lo_val", z3.Store(val_a, base.z, z3.Store(val_a[base.z], lv, v)))
                 return
             if base.k == "lorow":
                 m, lv = base.z
                 cases = self.key_cases(st, tgt.slice, node)
                 row, has, val_a = lo_arrays(ctx, st)
-                h = has[m]
-                v = val_a[m]
+                h = has[m][lv]
+                v = val_a[m][lv]
                 z = val.z if val.k == "ref" else as_int(ctx, st, val, node)
                 for cond, name in cases:
-                    k = lo_key(lv, name)
+                    k = ORIENTS[name]
                     h = z3.Store(h, k, z3.BoolVal(True) if cond is None else z3.If(cond, z3.BoolVal(True), h[k]))
                     v = z3.Store(v, k, z if cond is None else z3.If(cond, z, v[k]))
-                ctx.set_field_array(st, "lo_has", z3.Store(has, m, h))
-                ctx.set_field_array(st, "lo_val", z3.Store(val_a, m, v))
+                ctx.set_field_array(st, "lo_has", z3.Store(has, m, z3.Store(has[m], lv, h)))
+                ctx.set_field_array(st, "lo_val", z3.Store(val_a, m, z3.Store(val_a[m], lv, v)))
+                return
+            if base.k == "gridrow":
+                g, y = base.z
+                x = as_int(ctx, st, self.ev(st, tgt.slice), node)
+                gw = ctx.field_array(st, "g_w", AII)[g]
+                ctx.oblige(st, z3.And(x >= -gw, x < gw), "index-range", node, "column index within the 2-D array's width")
+                x = z3.If(x < 0, x + gw, x)
+                gv = ctx.field_array(st, "g_val", AIAA)
+                ctx.set_field_array(st, "g_val", z3.Store(gv, g, z3.Store(gv[g], y, z3.Store(gv[g][y], x, as_int(ctx, st, val, node)))))
                 return
             if base.k == "ref" and str(kind).startswith("opaque"):
                 self.ev(st, tgt.slice)
@@ -275,7 +303,7 @@ def install(Exec, Runner):
                 r = self.alloc_ref(st, "lomap")
                 row, has, val_a = lo_arrays(ctx, st)
                 ctx.set_field_array(st, "lo_row", z3.Store(row, r, z3.K(I, z3.BoolVal(False))))
-                ctx.set_field_array(st, "lo_has", z3.Store(has, r, z3.K(I, z3.BoolVal(False))))
+                ctx.set_field_array(st, "lo_has", z3.Store(has, r, z3.K(I, z3.K(I, z3.BoolVal(False)))))
                 val = mk_ref(r, t[4:])
             else:
                 val = self.materialise_dict(st, val, node)
